@@ -173,7 +173,8 @@ theorem rep_zero_succ (f : Flags) (s : List Char) (a : Re) (n : Nat) (i j : Nat)
 /-! ## IGNORECASE differs only by case folding -/
 
 /-- matching with IGNORECASE is matching the case-folded pattern against the case-folded subject
-(all patterns whose bracket expressions list single characters; ranges: `icase_range_rule`) -/
+(all patterns whose bracket expressions list single characters; ranges and named classes:
+`icase_range_rule`, `icase_named_rule`) -/
 theorem icase_eq_fold (nb : Bool) (s : List Char) (r : Re) (h : noRange r = true) (i j : Nat) :
     Matches ⟨true, nb⟩ s r i j ↔ Matches ⟨false, nb⟩ (s.map fold) (foldRe r) i j :=
   matches_icase_fold h
@@ -189,6 +190,11 @@ theorem icase_chr_rule (c d : Char) : chrEq true c d = (fold c == fold d) := rfl
 /-- a bracket range under IGNORECASE contains `d` iff it contains `d`, `tolower d` or `toupper d` -/
 theorem icase_range_rule (lo hi d : Char) :
     itemHas true (.range lo hi) d = (inRange lo hi d || inRange lo hi (fold d) || inRange lo hi (upper d)) := by
+  simp [itemHas, Bool.or_assoc]
+
+/-- a named class under IGNORECASE contains `d` iff it contains `d`, `tolower d` or `toupper d` -/
+theorem icase_named_rule (k : CClass) (d : Char) :
+    itemHas true (.named k) d = (k.has d || k.has (fold d) || k.has (upper d)) := by
   simp [itemHas, Bool.or_assoc]
 
 /-- without IGNORECASE nothing is folded -/
@@ -294,6 +300,13 @@ example : matchLL { icase := true } (.chr 'a') ['A'] = some (0, 1) := by decide
 example : matchLL {} (.cat .bol (.chr 'a')) ['a'] = some (0, 1) := by decide
 example : matchLL { notbol := true } (.cat .bol (.chr 'a')) ['a'] = none := by decide
 example : matchLL { icase := true } (.cls true [.chr 'a']) ['A', 'b'] = some (1, 1) := by decide
+
+/-- brackets: a fold must not leak beyond the item (`[a]` does not accept `B` under IGNORECASE), negated
+overlapping ranges (`[^a-cb-e]` rejects `d`), a negated named class inside a repeat (`[^[:digit:]]{2}` on `12`) -/
+example : matchLL { icase := true } (.cls false [.chr 'a']) ['B'] = none := by decide
+example : matchLL { icase := true } (.cls false [.range 'a' 'c']) ['D', 'C'] = some (1, 1) := by decide
+example : matchLL {} (.cls true [.range 'a' 'c', .range 'b' 'e']) ['d'] = none := by decide
+example : matchLL {} (.rep (.cls true [.named .digit]) 2 (some 2)) ['1', '2'] = none := by decide
 
 /-- the hypotheses of `notbol_suffix` are satisfiable with a non-trivial match -/
 example : Matches ⟨false, true⟩ (['x', 'a', 'b'].drop 1) (.cat (.chr 'a') (.cat (.chr 'b') .eol)) 0 2 :=
